@@ -7,7 +7,7 @@ from .. import grouplab as G
 ID = "C06"
 LEVEL = "exploration"
 RULE = ("one content class of n paths (n<=3 quick, <=4 thorough; 25-byte or 20000-byte files alternately, so that both the pass-through and the re-hashing code paths count replicas) plus a decoy of the same size: every set partition of "
-        "the paths into inodes (hard links), every placement into roots r1/r2 (and a sub-directory), optional "
+        "the paths into inodes (hard links), every placement into roots r1/r1x (one name a string prefix of the other) and a sub-directory, optional "
         "replacement of a path by a relative/absolute symlink to another member; x {none,-H,--isolate,-S,-S -H,-L,"
         "-L -S,--isolate -H} x {--rf-over 0..3, --rf-under 1..3, --unique} x root order; spelling sub-space: the same "
         "scenarios with roots spelled absolute, relative, ./r, r/, r/../r and through a directory symlink. Oracle: "
@@ -60,7 +60,7 @@ def spell(root, how, tree_root_placeholder="@TREE@"):
 def structure(n, rgs, placement, sym, big=False):
     """rgs[i] = inode block of path i; placement[i] in {0: r1/d, 1: r2/d, 2: r1/sub/deep}; sym = None or
     (i, j, 'rel'|'abs'): path i is a symlink to path j."""
-    dirs = ["r1/d", "r2/d", "r1/sub/deep"]
+    dirs = ["r1/d", "r1x/d", "r1/sub/deep"]   # "r1" is a string prefix of "r1x" but not a path prefix
     paths = ["%s/m%d" % (dirs[placement[i]], i) for i in range(n)]
     tree = []
     first_of_block = {}
@@ -79,9 +79,9 @@ def structure(n, rgs, placement, sym, big=False):
         tgt = ("@TREE@/" + paths[j]) if how == "abs" else "../" * paths[i].count("/") + paths[j]
         tree.append({"p": paths[i], "k": "sym", "to": tgt})
     tree.append({"p": "r1/d/decoy", "k": "file", "c": ["flip", 20000, 3, 19999] if big else ["lit", "other-content-of-the-clas0"]})
-    tree.append({"p": "r2/d", "k": "dir"})
+    tree.append({"p": "r1x/d", "k": "dir"})
     tree.append({"p": "lnk_r1", "k": "sym", "to": "r1"})
-    tree.append({"p": "lnk_r2", "k": "sym", "to": "r2"})
+    tree.append({"p": "lnk_r1x", "k": "sym", "to": "r1x"})
     return tree, paths
 
 
@@ -121,7 +121,7 @@ def cases(tier, seed):
                             idx += 1
                             if quick and n == 3 and idx % 3:
                                 continue
-                            order = ["r1", "r2"] if idx % 2 else ["r2", "r1"]
+                            order = ["r1", "r1x"] if idx % 2 else ["r1x", "r1"]
                             if "--isolate" in flags and flt in (["--rf-over", "2"], ["--rf-over", "3"],
                                                                 ["--rf-under", "3"]):
                                 continue   # rejected by fclones: needs more roots than the replication bound
@@ -138,8 +138,8 @@ def cases(tier, seed):
                             if quick and idx % 2:
                                 continue
                             meta = {"n": n, "rgs": rgs, "placement": list(placement), "sym": sym, "flags": flags,
-                                    "filter": " ".join(flt) or "default", "spelling": "all", "order": ["r1", "r2"]}
-                            out.append({"tree": tree, "roots": ["r1", "r2"], "args": ["--min", "0"] + flags + flt,
+                                    "filter": " ".join(flt) or "default", "spelling": "all", "order": ["r1", "r1x"]}
+                            out.append({"tree": tree, "roots": ["r1", "r1x"], "args": ["--min", "0"] + flags + flt,
                                         "meta": meta, "spellings": SPELLINGS})
     return out
 
